@@ -311,4 +311,126 @@ theorem topk_extend {M R' : List Cand} {k : Nat} (hM : M.Nodup) (hR' : R'.Nodup)
       exact hout y hy'.1 (by simpa using hy'.2) n hn
   rw [hsplit, take_left' hfull]
 
+/-! ## accounts -/
+
+def AcctNodup (l : List Acct) : Prop := (l.map (·.addr)).Nodup
+
+theorem AcctNodup.eq_of_addr {l : List Acct} (h : AcctNodup l) {x y : Acct} (hx : x ∈ l) (hy : y ∈ l)
+    (ha : x.addr = y.addr) : x = y := by
+  induction l with
+  | nil => simp at hx
+  | cons z zs ih =>
+    have hz := nodup_cons.mp (show Nodup (z.addr :: zs.map (·.addr)) from h)
+    rcases mem_cons.mp hx with rfl | hx' <;> rcases mem_cons.mp hy with rfl | hy'
+    · rfl
+    · exact absurd (mem_map.mpr ⟨y, hy', ha.symm⟩) hz.1
+    · exact absurd (mem_map.mpr ⟨x, hx', ha⟩) hz.1
+    · exact ih hz.2 hx' hy'
+
+theorem mem_putAcct {l : List Acct} {c x : Acct} :
+    x ∈ putAcct l c ↔ x = c ∨ (x ∈ l ∧ x.addr ≠ c.addr) := by
+  simp [putAcct]
+
+theorem acctNodup_putAcct {l : List Acct} (c : Acct) (h : AcctNodup l) : AcctNodup (putAcct l c) := by
+  unfold AcctNodup putAcct
+  rw [map_cons, nodup_cons]
+  constructor
+  · intro hm
+    obtain ⟨y, hy, hya⟩ := mem_map.mp hm
+    simp at hy
+    exact hy.2 hya
+  · exact Nodup.sublist (filter_sublist.map _) h
+
+theorem acctNodup_foldl_putAcct (L : List Acct) {S : List Acct} (h : AcctNodup S) :
+    AcctNodup (L.foldl putAcct S) := by
+  induction L generalizing S with
+  | nil => simpa
+  | cons l L ih => exact ih (acctNodup_putAcct l h)
+
+theorem mem_foldl_putAcct {L : List Acct} (hL : AcctNodup L) {S : List Acct} {x : Acct} :
+    x ∈ L.foldl putAcct S ↔ x ∈ L ∨ (x ∈ S ∧ ∀ l ∈ L, l.addr ≠ x.addr) := by
+  induction L generalizing S with
+  | nil => simp
+  | cons l L ih =>
+    have hl := nodup_cons.mp (show Nodup (l.addr :: L.map (·.addr)) from hL)
+    have hL' : AcctNodup L := hl.2
+    rw [foldl_cons, ih hL', mem_putAcct]
+    constructor
+    · rintro (h | ⟨h | ⟨hS, hne⟩, hall⟩)
+      · exact Or.inl (mem_cons_of_mem _ h)
+      · exact Or.inl (h ▸ mem_cons_self)
+      · refine Or.inr ⟨hS, ?_⟩
+        intro l' hl'
+        rcases mem_cons.mp hl' with rfl | h'
+        · exact fun e => hne e.symm
+        · exact hall l' h'
+    · rintro (h | ⟨hS, hall⟩)
+      · rcases mem_cons.mp h with rfl | h'
+        · refine Or.inr ⟨Or.inl rfl, ?_⟩
+          intro l' hl' e
+          exact hl.1 (mem_map.mpr ⟨l', hl', e⟩)
+        · exact Or.inl h'
+      · refine Or.inr ⟨Or.inr ⟨hS, fun e => hall l mem_cons_self e.symm⟩, ?_⟩
+        intro l' hl'
+        exact hall l' (mem_cons_of_mem _ hl')
+
+theorem mem_registered {accts : List Acct} {x : Cand} :
+    x ∈ registered accts ↔ ∃ y ∈ accts, y.flag = Flag.yes ∧ y.addr = x.addr ∧ y.votes = x.votes := by
+  cases x with
+  | mk a v =>
+    simp only [registered, mem_map, mem_filter, beq_iff_eq, Cand.mk.injEq]
+    constructor
+    · rintro ⟨y, ⟨hy, hf⟩, h1, h2⟩; exact ⟨y, hy, hf, h1, h2⟩
+    · rintro ⟨y, hy, hf, h1, h2⟩; exact ⟨y, ⟨hy, hf⟩, h1, h2⟩
+
+theorem addrNodup_registered {accts : List Acct} (h : AcctNodup accts) : AddrNodup (registered accts) := by
+  unfold AddrNodup registered
+  rw [map_map]
+  exact Nodup.sublist (filter_sublist.map _) h
+
+theorem flagOf_eq_yes_iff {accts : List Acct} (h : AcctNodup accts) (a : Nat) :
+    flagOf accts a = Flag.yes ↔ ∃ y ∈ accts, y.addr = a ∧ y.flag = Flag.yes := by
+  induction accts with
+  | nil => simp [flagOf, findAcct]
+  | cons z zs ih =>
+    have hz := nodup_cons.mp (show Nodup (z.addr :: zs.map (·.addr)) from h)
+    by_cases hza : z.addr = a
+    · have : flagOf (z :: zs) a = z.flag := by simp [flagOf, findAcct, hza]
+      rw [this]
+      constructor
+      · intro hf; exact ⟨z, mem_cons_self, hza, hf⟩
+      · rintro ⟨y, hy, hya, hyf⟩
+        rcases mem_cons.mp hy with rfl | hy'
+        · exact hyf
+        · exact absurd (mem_map.mpr ⟨y, hy', hya.trans hza.symm⟩) hz.1
+    · have : flagOf (z :: zs) a = flagOf zs a := by
+        simp [flagOf, findAcct, find?_cons, hza]
+      rw [this, ih hz.2]
+      constructor
+      · rintro ⟨y, hy, h1, h2⟩; exact ⟨y, mem_cons_of_mem _ hy, h1, h2⟩
+      · rintro ⟨y, hy, h1, h2⟩
+        rcases mem_cons.mp hy with rfl | hy'
+        · exact absurd h1 hza
+        · exact ⟨y, hy', h1, h2⟩
+
+theorem dyeGo_eq_foldl {logs : List Cand} (hL : AddrNodup logs) (idx : List Cand) (seen : List Nat)
+    (hs : ∀ l ∈ logs, l.addr ∉ seen) : dyeGo idx seen logs = logs.foldl putCand idx := by
+  induction logs generalizing idx seen with
+  | nil => simp [dyeGo]
+  | cons l ls ih =>
+    have hl := nodup_cons.mp (show Nodup (l.addr :: ls.map (·.addr)) from hL)
+    have hnot : seen.contains l.addr = false := by
+      have := hs l mem_cons_self
+      simpa using this
+    simp only [dyeGo, hnot, Bool.false_eq_true, if_false, foldl_cons]
+    apply ih hl.2
+    intro l' hl' hmem
+    rcases mem_cons.mp hmem with e | h'
+    · exact hl.1 (mem_map.mpr ⟨l', hl', e⟩)
+    · exact hs l' (mem_cons_of_mem _ hl') h'
+
+theorem dye_eq_foldl {logs : List Cand} (hL : AddrNodup logs) (idx : List Cand) :
+    dye idx logs = logs.foldl putCand idx :=
+  dyeGo_eq_foldl hL idx [] (by simp)
+
 end LemoProofs.Ranking
